@@ -113,6 +113,21 @@ pub S: () = { A => (), B => () };
 A: () = { r#"%s"# => () };
 B: () = { r#"%s"# => () };
 """
+# the same two regexes in one rung of a match block (equal precedence) / in two rungs (the first wins: never ambiguous)
+AMBIG_SAME_RUNG = """grammar;
+match { r#"%s"# => TA, r#"%s"# => TB }
+pub S: () = { TA => (), TB => () };
+"""
+AMBIG_TWO_RUNGS = """grammar;
+match { r#"%s"# => TA } else { r#"%s"# => TB }
+pub S: () = { TA => (), TB => () };
+"""
+# a quoted literal against a regex: the literal has higher precedence, never ambiguous
+AMBIG_LITERAL = """grammar;
+pub S: () = { A => (), B => () };
+A: () = { "%s" => () };
+B: () = { r#"%s"# => () };
+"""
 
 
 def _strings(alpha, max_len):
@@ -136,6 +151,24 @@ def ambig_pairs(cfg):
             yield i, j, pool[i], pool[j], (common[0] if common else None)
 
 
+def _ambig_cases(cfg):
+    """(id, grammar text, description, witness or None, equal precedence?)"""
+    import re as _re
+    a = cfg["ambig"]
+    strs = [x for x in _strings(a["alphabet"], a["max_len"]) if x]
+    for (i, j, p1, p2, witness) in ambig_pairs(cfg):
+        yield ("%d:%d" % (i, j), AMBIG_GRAMMAR % (p1, p2), 'terminals r"%s" and r"%s"' % (p1, p2), witness, True)
+    # match-block forms on a subset of the pairs (every third pair, both kinds of verdict occur)
+    for n, (i, j, p1, p2, witness) in enumerate(ambig_pairs(cfg)):
+        if n % 3 == 0:
+            yield ("%d:%d:same" % (i, j), AMBIG_SAME_RUNG % (p1, p2), 'r"%s" and r"%s" in one match rung' % (p1, p2), witness, True)
+            yield ("%d:%d:two" % (i, j), AMBIG_TWO_RUNGS % (p1, p2), 'r"%s" and r"%s" in two match rungs' % (p1, p2), witness, False)
+    for li, lit in enumerate(a.get("literals", [])):
+        for j, p2 in enumerate(a["pool"]):
+            w = lit if _re.fullmatch(p2, lit) else None
+            yield ("lit%d:%d" % (li, j), AMBIG_LITERAL % (lit, p2), 'literal "%s" and r"%s"' % (lit, p2), w, False)
+
+
 def run_ambig(root, repo, cfg, lalrpop, work, only=None):
     """-> (number of grammars run, list of failure dicts)"""
     gdir = os.path.join(work, "ambig")
@@ -143,120 +176,24 @@ def run_ambig(root, repo, cfg, lalrpop, work, only=None):
     env = dict(os.environ)
     env.pop("LALRPOP_LANE_TABLE", None)
     n, fails = 0, []
-    for (i, j, p1, p2, witness) in ambig_pairs(cfg):
-        if only is not None and only != (i, j):
+    for (cid, text, desc, witness, equal) in _ambig_cases(cfg):
+        if only is not None and only != cid:
             continue
-        src = os.path.join(gdir, "amb_%d_%d.lalrpop" % (i, j))
-        open(src, "w").write(AMBIG_GRAMMAR % (p1, p2))
+        src = os.path.join(gdir, "amb_%s.lalrpop" % cid.replace(":", "_"))
+        open(src, "w").write(text)
         q = subprocess.run([lalrpop, "--force", "--level", "quiet", src], cwd=gdir, env=env, capture_output=True, text=True, timeout=120)
         out = q.stdout + q.stderr
         n += 1
         reported = "ambiguity detected" in out
+        expect = equal and witness is not None
         if q.returncode != 0 and not reported:
-            fails.append(dict(pair=(i, j), msg="terminals r\"%s\" and r\"%s\": lalrpop failed with something other than an ambiguity report: %s" % (p1, p2, out[-300:])))
-        elif witness is not None and not reported:
-            fails.append(dict(pair=(i, j), msg="terminals r\"%s\" and r\"%s\" (equal precedence) both match %r but the grammar was accepted" % (p1, p2, witness)))
-        elif witness is None and reported:
-            fails.append(dict(pair=(i, j), msg="terminals r\"%s\" and r\"%s\" match no common string (all strings up to length %d over %s) but lalrpop reported: %s" % (
-                p1, p2, cfg["ambig"]["max_len"], "".join(cfg["ambig"]["alphabet"]), out.strip()[-200:])))
+            fails.append(dict(pair=cid, msg="%s: lalrpop failed with something other than an ambiguity report: %s" % (desc, out[-300:])))
+        elif expect and not reported:
+            fails.append(dict(pair=cid, msg="%s (equal precedence) both match %r but the grammar was accepted" % (desc, witness)))
+        elif not expect and reported:
+            why = ("match no common string (all strings up to length %d over %s)" % (cfg["ambig"]["max_len"], "".join(cfg["ambig"]["alphabet"]))) if witness is None else "have different precedence"
+            fails.append(dict(pair=cid, msg="%s %s but lalrpop reported: %s" % (desc, why, out.strip()[-200:])))
     return n, fails
-
-
-# ---------------------------------------------------------------------------------------------------------------
-# random small grammars (seeded): widen the grammar shapes U5 sees beyond the hand-written ones
-# ---------------------------------------------------------------------------------------------------------------
-RND_TERMS = [("a", "Tok::A", 6), ("b", "Tok::B", 7), ("c", "Tok::C", 8), ("d", "Tok::D", 9), ("e", "Tok::E", 10), ("p", "Tok::P", 11)]
-RND_HEADER = """use crate::common::{Tok, MyErr};
-@ATTRS@
-grammar;
-extern {
-    type Location = usize;
-    type Error = MyErr;
-    enum Tok { "a" => Tok::A, "b" => Tok::B, "c" => Tok::C, "d" => Tok::D, "e" => Tok::E, "p" => Tok::P }
-}
-"""
-
-
-def _random_grammar(rng):
-    nn = rng.randint(2, 4)
-    nt = rng.randint(3, 5)
-    prods = []
-    for lhs in range(nn):
-        for _ in range(rng.randint(1, 3)):
-            rhs = []
-            for _ in range(rng.choice([0, 1, 1, 2, 2, 2, 3, 3])):
-                if rng.random() < 0.45:
-                    rhs.append(("N", rng.randrange(nn)))
-                else:
-                    rhs.append(("T", rng.randrange(nt)))
-            if (lhs, rhs) not in prods:
-                prods.append((lhs, rhs))
-    # productive / reachable
-    productive = set()
-    changed = True
-    while changed:
-        changed = False
-        for (l, r) in prods:
-            if l not in productive and all(k == "T" or v in productive for (k, v) in r):
-                productive.add(l)
-                changed = True
-    reach = {0}
-    changed = True
-    while changed:
-        changed = False
-        for (l, r) in prods:
-            if l in reach:
-                for (k, v) in r:
-                    if k == "N" and v not in reach:
-                        reach.add(v)
-                        changed = True
-    if productive != set(range(nn)) or reach != set(range(nn)):
-        return None
-    used = sorted(set(v for (_, r) in prods for (k, v) in r if k == "T"))
-    if len(used) < 2:
-        return None
-    return nn, prods, used
-
-
-def random_grammars(seed, want, lalrpop, gdir, env):
-    """-> list of dict(name, prods, terms) for grammars the DEFAULT configuration of lalrpop accepts"""
-    import random
-    rng = random.Random(1000003 * (seed + 1))
-    out = []
-    tries = 0
-    while len(out) < want and tries < want * 40:
-        tries += 1
-        g = _random_grammar(rng)
-        if g is None:
-            continue
-        nn, prods, used = g
-        body = []
-        for n in range(nn):
-            alts = []
-            for (l, r) in prods:
-                if l == n:
-                    alts.append("    " + " ".join(('"%s"' % RND_TERMS[v][0]) if k == "T" else ("N%d" % v) for (k, v) in r) + " => (),")
-            body.append("%sN%d: () = {\n%s\n};" % ("pub " if n == 0 else "", n, "\n".join(alts)))
-        text = RND_HEADER + "\n".join(body) + "\n"
-        name = "rnd%d" % len(out)
-        ok = True
-        for (suffix, attrs) in (("lane", ""), ("ascent", "#[recursive_ascent]")):
-            src = os.path.join(gdir, "%s_%s.lalrpop" % (name, suffix))
-            open(src, "w").write(text.replace("@ATTRS@", attrs))
-            q = subprocess.run([lalrpop, "--force", "--level", "quiet", src], cwd=gdir, env=env, capture_output=True, text=True, timeout=120)
-            if q.returncode != 0 or not os.path.exists(src[:-8] + ".rs"):
-                ok = False
-                break
-        if not ok:
-            for suffix in ("lane", "ascent"):
-                for ext in (".lalrpop", ".rs"):
-                    try:
-                        os.remove(os.path.join(gdir, "%s_%s%s" % (name, suffix, ext)))
-                    except OSError:
-                        pass
-            continue
-        out.append(dict(name=name, prods=prods, terms=used, text=text))
-    return out
 
 
 def run_gen_unit(root, repo, us, prop, tier, seed, work):
@@ -311,8 +248,8 @@ def run_gen_unit(root, repo, us, prop, tier, seed, work):
     # C11 end to end
     an, afails = run_ambig(root, repo, cfg, cfg["_lalrpop"], work)
     for af in afails:
-        r["failed"].append(dict(id="native/gen:ambig_%d_%d:C11" % af["pair"], function="lexer ambiguity check", message=af["msg"][:600], clause="",
-                                tags=["C11"], output=af["msg"], counterexample=af["msg"], replay_gen=dict(arg="ambig:%d:%d" % af["pair"])))
+        r["failed"].append(dict(id="native/gen:ambig_%s:C11" % af["pair"].replace(":", "_"), function="lexer ambiguity check", message=af["msg"][:600], clause="",
+                                tags=["C11"], output=af["msg"], counterexample=af["msg"], replay_gen=dict(arg="ambig=" + af["pair"])))
     n += an
     r["evaluations"] = n
     r["distinct_nontrivial"] = n
@@ -331,9 +268,8 @@ def replay(root, repo, d):
         if err:
             print("replay could not be built: " + err)
             return 2
-        if d["replay_gen"]["arg"].startswith("ambig:"):
-            _, i, j = d["replay_gen"]["arg"].split(":")
-            an, afails = run_ambig(root, repo, cfg, cfg["_lalrpop"], work, only=(int(i), int(j)))
+        if d["replay_gen"]["arg"].startswith("ambig="):
+            an, afails = run_ambig(root, repo, cfg, cfg["_lalrpop"], work, only=d["replay_gen"]["arg"][6:])
             for af in afails:
                 print("FAILING-INPUT: " + af["msg"])
             if afails:
